@@ -46,10 +46,10 @@ PROPS = {
         explanation='parse_header (verbatim, incl. the real decode loop): for EVERY entry of every accepted header the stored data equals an independent decoding of the store bytes written as spec functions (strings up to the first NUL, integer arrays big-endian at full length, string / i18n arrays item by item with terminators skipped, binary verbatim) - postcondition decoded(entry, store), unbounded; typed getters return the data of the first entry with the tag iff its type matches, else the documented error (unit c05_getters on the verbatim getters and as_* projections, for any number of entries, over the find_entry_or_err contract that K:k_getters_* establish for 3 entries); the 18 scalar accessors of PackageMetadata (name, version, release, epoch, arch, vendor, url, vcs, license, packager, build host/time, cookie, source rpm, summary, description, group, installed size) return what the getter gives for the rpm tag number they are named after; get_installed_size prefers LONGSIZE then SIZE.',
     ),
     'C07': dict(
-        level='proof', verus=['c07_payload', 'c07_iter', 'c09_blocks'],
+        level='proof', verus=['c07_payload', 'c07_iter', 'c07_header', 'c09_blocks'],
         trusted_base=[A_TOOLS, A_EXTRACT, 'A-IO std Read / Write / Take / io::copy contracts (prelude/read.rs, io.rs)', 'A-64BIT: usize is 64 bits (global size_of usize == 8)', 'A-SLICE-LEN: slices never exceed isize::MAX bytes'],
-        assumptions=['PARTIAL: decided are the cpio framing arithmetic and size accounting of src/rpm/payload.rs (pad, Reader::read, Reader::finish, Writer::write / try_write_header / do_finish and their composition). NOT covered: compressors / decompressors (FFI), hex header field formatting and parsing (format!, from_str_radix), the path matching inside Reader::file_entry_index (&str code), builder file ordering, digest equality of content',
-                     'the header produced by Builder::into_header being a multiple of 4 bytes is a precondition of the composition lemma, not proved (format! based)'],
+        assumptions=['PARTIAL: decided are the cpio framing arithmetic and size accounting of src/rpm/payload.rs (pad, Reader::read, Reader::finish, Writer::write / try_write_header / do_finish and their composition). NOT covered: compressors / decompressors (FFI), that the eight digits format! prints are the hexadecimal digits from_str_radix reads back (both are leaves: hex8_spec here, K:k_read_hex_u32 there), the path matching inside Reader::file_entry_index (&str code), builder file ordering, digest equality of content',
+                     'the header produced by Builder::into_header IS a multiple of 4 bytes long and carries the file size and the name length in their fields (unit c07_header; format!("{:08x}", x) as a helper with the contract: eight digits, for values below 2^32 - which makes "the name is shorter than 4 GiB" a precondition of into_header)'],
         explanation='Verbatim bodies: FileIterator::next pairs the content with the header file entry the archive entry NAMES (index returned by Reader::file_entry_index), never by position; Reader::new bounds the name buffer, bounds-checks the stripped file index and sizes the entry from the cpio header resp. the header file entry; pad(len) is (4 - len mod 4) mod 4 NUL bytes; Reader::read never hands out more than file_size - bytes_read, accounts exactly what it handed out and cannot overflow; Reader::finish consumes the rest of the entry plus its padding; Writer::write accepts data only while it fits the announced size and emits the header first; header + full body + finish yields hdr ++ body ++ NUL padding with 4-byte alignment.',
     ),
     'C08': dict(
@@ -176,7 +176,7 @@ PROPS['C13'] = dict(
     technique='contract-based deductive verification (Verus): the real comparison loop against a recursive specification of rpmvercmp, order laws proved on the specification',
 )
 PROPS['C09'] = dict(
-    level='proof', verus=['c09_from_entries', 'c09_append', 'c09_blocks', 'c14_writers', 'c07_payload', 'c16_offsets', 'c17_compressor', 'c06_files'],
+    level='proof', verus=['c09_from_entries', 'c09_append', 'c09_blocks', 'c14_writers', 'c07_payload', 'c07_header', 'c16_offsets', 'c17_compressor', 'c06_files'],
     trusted_base=[A_TOOLS, A_EXTRACT, 'IndexData::append is proved on its verbatim body for data and stores of any size (unit c09_append; the two iterator chains d.iter().map(to_be_bytes) / d.iter().flat_map(to_be_bytes().to_vec()) are helper contracts: the big-endian bytes of the items in order - K:k_append_* check the same contract on the real function with the real iterators for small sizes); write_index contract proved in unit c14_writers',
                   'assumed std specification of slice::sort_by (permutation, no earlier element compares Greater than a later one)', 'A-UTF8: String::as_bytes is uninterpreted'],
     assumptions=['PARTIAL: decided are the header layout produced by Header::from_entries / create_region_tag (region tag + trailer, ascending tags, aligned in-range non-overlapping offsets, store = aligned concatenation), the 8-byte signature padding, the cpio 4-byte alignment arithmetic and the lead defaults. BLOCK contracts on verbatim statement ranges of PackageBuilder::prepare_data (the function as a whole is out of reach) cover the rpmlib() requirements per feature used (b2), the accumulation of the file-capabilities flag (b3) and the large-file entry framing (b4); Compressor::try_from builds the variant requested (c17). the large-file format is used exactly when the file sizes add up to more than u32::MAX, and the sizes are then 64-bit under LONGFILESIZES (blocks b13, b12 of unit c06_files). NOT covered: distinctness of emitted tags, non-zero counts, payload order = header order, how the zstd flag is derived',
